@@ -1,3 +1,4 @@
+import TvCore.Props.WorldLinks
 import TvCore.Props.C08
 #print axioms TV.C08.hold_establishes
 #print axioms TV.C08.process_noop
@@ -13,3 +14,5 @@ import TvCore.Props.C08
 #print axioms TV.C08.ids_release
 #print axioms TV.C08.ids_manual
 #print axioms TV.C08.perm_drain
+#print axioms TV.WorldLinks.linkEnqueue_other
+#print axioms TV.WorldLinks.onLink_other
